@@ -9,6 +9,7 @@ HARNESSES = {
     'unique_seq': {'san': 'asan'},
     'bits_seq': {'san': 'asan'},
     'guard_seq': {'san': 'asan'},
+    'slab_conc': {'san': 'tsan'},
     'qs_conc': {'san': 'tsan'},
     'radix_conc': {'san': 'tsan'},
     'spin_conc': {'san': 'tsan'},
@@ -413,6 +414,28 @@ PROPS['C10'] = {
     'level_note': 'interleavings are sequentially consistent; weak-memory effects are visible only as TSan data races between plain accesses; plain accesses are not pre-emption points',
     'technique': 'schedule-controlled concurrency testing (harness-owned scheduler over interposed atomics, random + DFS schedules) with TSan and a presence oracle',
     'assumptions': ['single writer', 'a slot is reused only after the readers were joined (grace period)'],
+}
+
+PROPS['C05'] = {
+    'runs': [{'harness': 'slab_conc',
+              'quick': {'enum': True, 'rc': rc(2500, sizes=[30, 80, 200], scale=2)},
+              'thorough': {'enum': True, 'rc': rc(50000, sizes=[30, 80, 200, 400], scale=2)}},
+             {'harness': 'slab_seq', 'quick': {'rc': rc(300, sizes=[60, 120], workers=6)}, 'thorough': {'rc': rc(5000, sizes=[60, 120, 250], workers=8)}}],
+    'rule': 'slab_pool<Policy, sched_mutex> in a TSan build: 2-4 threads (thorough: up to 8), each running a generated script of allocate / free / deallocate / realloc over a few '
+            'shared size classes (16, 64, 2048, the largest class) plus large blocks, send/receive of blocks through release/acquire mailbox slots (cross-thread frees), two policy '
+            'configurations (aligned 16K slabs, unaligned 32K slabs), optionally a re-entrant policy that frees a block of its own from inside unmap; templates make "all threads '
+            'start on the same empty class" common; the schedule (pre-emption at every lock operation, policy call and mailbox access) comes from the tape; enumeration: 2 threads x 2 '
+            'operations on one class, interleavings by depth-first search. Oracle: a global live-block table updated at call return (exact, because execution is serialised): no block '
+            'handed out twice, C01 extent/alignment/containment across threads, block contents intact, zero TSan reports on pool state, no deadlock (every thread blocked or a thread '
+            're-locking a pool lock it holds), completion within the step limit, Policy::map/unmap only with no pool lock held by the caller, after all frees only slabs stay mapped and '
+            'numUsedPages() equals what a sequential pool reports for the same slabs. The sequential slab harness adds the lock-hold clause with an instrumented mutex. '
+            'Non-trivial: at least one context switch inside a pool call; distinct = hash of (configuration, scripts) - schedules of one script count once.',
+    'required_tags': ['two-threads-constructing-a-slab-of-one-class', 'cross-thread-free', 're-entrant-unmap', 'threads-2', 'threads-3', 'threads-4', 'switches-20+'],
+    'min_cases': {'quick': 20000, 'thorough': 400000},
+    'level_text': 'schedule-controlled interleavings at lock granularity (random and depth-first over a small scope) under TSan with a serialised live-block oracle; held on everything generated',
+    'level_note': 'pre-emption points are lock operations, policy calls and the client\'s mailbox accesses; plain accesses are covered by TSan only; liveness is "within the step limit under the generated schedule"',
+    'technique': 'schedule-controlled concurrency testing (harness-owned scheduler via the Mutex template parameter, random + DFS schedules) with TSan and a live-block table oracle',
+    'assumptions': ['the mutex type is correct (sched_mutex wraps a real std::mutex)', 'clients hand blocks over with release/acquire synchronisation'],
 }
 
 NOT_APPLICABLE = {}
